@@ -954,6 +954,8 @@ def expected(m):
     E["ti"] = sec("ti", lambda l: True, lambda l: [list(x) for x in l])
     for k in RAW_KEYS:
         E[k] = sec(k, lambda b: True, (lambda kk: lambda b: [[len(b.b)] + list(b.b)] + (kv_expect(b.b, KV_SEP[kk]) if kk in KV_SEP else []))(k))
+    # maps: the raw bytes, then the regions a reader of proc(5) text must find (Ellipsis: the rest is left to the model)
+    E["lxmaps"] = sec("lxmaps", lambda b: True, lambda b: [[len(b.b)] + list(b.b)] + (maps_expect(b.b) or [Ellipsis]))
     def onm(o):
         return [-1] if o is None else [len(o)] + list(o)
 
@@ -968,6 +970,65 @@ def expected(m):
         E["hnd"] = tail_expect(4, th[-1])
         E["hinfo"] = (2, [chain_expect(th[-1], h) for h in th[-1]["handles"]])
     return E
+
+
+
+# ----------------------------------------------------------------------------- Linux maps: the documented reading (proc(5))
+import re
+MAPS_RE = re.compile(rb"^([0-9a-f]{1,16})-([0-9a-f]{1,16}) ([r-])([w-])([x-])([sp-]) ([0-9a-f]{1,16}) ([0-9a-f]{1,7}):([0-9a-f]{1,7}) ([0-9]{1,20}) +([^ ].*)?$")
+SMAPS_RE = re.compile(rb"^(VmFlags:( [a-z]{2})* ?|[A-Z][A-Za-z_]*: +[0-9]{1,15}( kB)?)$")
+MAPS_SPECIAL = {b"[heap]": 1, b"[stack]": 2, b"[vdso]": 4, b"[vvar]": 5, b"[vsyscall]": 6, b"[rollup]": 7}
+NAME_EDGE = set(range(0x21, 0x7f))          # the first / last byte of a name the oracle judges: graphic ASCII
+
+
+def maps_expect(data):
+    """items a reader of /proc/<pid>/maps (or smaps) text must produce: [2], then per mapping the two addresses, permission bits,
+    offset, device, inode, "first address <= second", kind of name.  None = the text is not in the documented shape (or uses a form
+    whose reading the documentation does not fix): then only the Coq model is compared with the implementation."""
+    lines = data.split(b"\n")
+    if lines and lines[-1] == b"":
+        lines.pop()
+    out = [[2]]
+    for i, ln in enumerate(lines):
+        if SMAPS_RE.match(ln):
+            if i == 0:
+                return None
+            continue
+        mt = MAPS_RE.match(ln)
+        if not mt:
+            return None
+        lo, hi, off, maj, mi = (int(mt.group(k), 16) for k in (1, 2, 7, 8, 9))
+        ino = int(mt.group(10))
+        if ino > U64:
+            return None
+        perms = (1 if mt.group(3) == b"r" else 0) | (2 if mt.group(4) == b"w" else 0) | (4 if mt.group(5) == b"x" else 0) | \
+                {b"s": 8, b"p": 16, b"-": 0}[mt.group(6)]
+        name = mt.group(11) or b""
+        it = [lo, hi, perms, off, maj, mi, ino, 1 if lo <= hi else 0]
+        if name == b"":
+            it += [8]
+        else:
+            if name[0] not in NAME_EDGE or name[-1] not in NAME_EDGE or not is_utf8(name):
+                return None
+            if name in MAPS_SPECIAL:
+                it += [MAPS_SPECIAL[name]]
+            elif name.startswith(b"[stack:"):
+                mm = re.match(rb"^\[stack:([0-9]{1,9})\]$", name)
+                if not mm:
+                    return None
+                it += [3, int(mm.group(1))]
+            elif name[:1] == b"[" and name[-1:] == b"]":
+                it += [10, len(name) - 2] + list(name[1:-1])
+            elif name.startswith(b"/SYSV"):
+                mm = re.match(rb"^/SYSV([0-9a-f]{8})( \(deleted\))?$", name)
+                if not mm:
+                    return None
+                v = int(mm.group(1), 16)
+                it += [9, v - (1 << 32) if v >= (1 << 31) else v]
+            else:
+                it += [0, len(name)] + list(name)
+        out.append(it)
+    return out
 
 
 WS = b" \t\n\x0c\r"
@@ -1025,6 +1086,9 @@ def compare(E, got, only=None, what="reading"):
         if exp is None:
             continue
         est, eitems = exp
+        if eitems and eitems[-1] is Ellipsis:        # the items after these are not judged
+            eitems = eitems[:-1]
+            items = items[:len(eitems)]
         if st != est:
             return "%s: stream %s status %d, the model has %s" % (what, name, st, {0: "no such stream", 1: "a stream the reader must refuse", 2: "a well-formed stream"}[est])
         if len(items) != len(eitems):
@@ -1084,7 +1148,8 @@ def synth_ok(m):
 class Gen:
     def __init__(self, rng, tier):
         self.r = rng
-        self.big_budget = 60000 if tier == "quick" else 60000
+        self.tier = tier
+        self.big_budget = 66000
 
     def u(self, bits):
         r = self.r
@@ -1255,7 +1320,9 @@ class Gen:
 
     def model(self, well_formed):
         r = self.r
-        budget = [self.big_budget]
+        # bytes of large blobs (regions, stacks) per model: the whole 64 KiB in every model of the thorough tier and in one model in
+        # six of the quick tier (whose cost is the number of bytes the extracted decoder walks), 5000 bytes in the others
+        budget = [self.big_budget if (self.tier != "quick" or r.chance(1, 6)) else 5000]
         m = {"endian": 0, "version": 42899 | (self.u(16) << 16), "checksum": self.u(32), "time": self.u(32), "flags": self.u(64),
              "pad": r.below(2), "extra": []}
         present = {k: r.chance(2, 3) for k in ST}
@@ -1365,6 +1432,8 @@ class Gen:
         for k in RAW_KEYS:
             if r.chance(1, 4):
                 m[k] = self.text(KV_SEP.get(k, b":"))
+        if r.chance(1, 3):
+            m["lxmaps"] = self.maps()
         if r.chance(1, 3):
             def oname():
                 if r.chance(1, 3):
@@ -1510,6 +1579,110 @@ class Gen:
             out[i], out[j] = out[j], out[i]
         return out
 
+    def maps_name(self, odd):
+        r = self.r
+        k = r.below(16 if odd else 11)
+        word = lambda: bytes(r.choice(b"abcxyzLIB019_.-+") for _ in range(r.range(1, 9)))
+        if k == 0:
+            return b""
+        if k == 1:
+            return b"/" + b"/".join(word() for _ in range(r.range(1, 4)))
+        if k == 2:
+            return b"/" + word() + b" " + word() + r.choice([b"", b" (deleted)"])
+        if k == 3:
+            return r.choice([b"[heap]", b"[stack]", b"[vdso]", b"[vvar]", b"[vsyscall]", b"[rollup]"])
+        if k == 4:
+            return b"[stack:%d]" % r.choice([0, 1, r.below(100000), 999999999])
+        if k == 5:
+            return r.choice([b"[anon:" + word() + b"]", b"[anon_shmem:" + word() + b"]", b"[]", b"[" + word() + b"]", b"[heap ]", b"[stack" + word() + b"]"])
+        if k == 6:
+            return b"/SYSV%08x" % self.u(32) + r.choice([b"", b" (deleted)"])
+        if k == 7:
+            return b"/" + word() + "é☃𝄞".encode("utf-8")[: r.choice([2, 5, 9])] + word()
+        if k == 8:
+            return word() + r.choice([b":", b"]", b"[", b" x"]) + word()
+        if k == 9:
+            return r.choice([b"/SYSVx", b"SYSV00000000", b"[Heap]", b"anon_inode:[eventfd]", b"socket:[123]", b"/memfd:x (deleted)"])
+        if k == 10:
+            return b"//" + word()
+        # ---- forms whose reading proc(5) does not fix: model vs implementation only
+        if k == 11:     # Unicode white space around the name
+            wsp = lambda: r.choice(["\u00a0", "\u2003", "\u3000", "\t", "\u0085", "\u1680", "\u2028", "\u205f", "\x0b", "\x0c", "\u200b", "\u00a1"]).encode("utf-8")
+            return wsp() + r.choice([b"", word(), b"[heap]"]) + wsp()
+        if k == 12:     # thread stacks: bad / huge ids, no closing bracket, a multi-byte last character (the slice panics)
+            return r.choice([b"[stack:x]", b"[stack:]", b"[stack:", b"[stack:4294967295]", b"[stack:4294967296]", b"[stack:+7]", b"[stack:-7]", b"[stack:5:6]",
+                             b"[stack:12", "[stack:5é".encode("utf-8"), "[stack:é]".encode("utf-8"), b"[stack:12]x"])
+        if k == 13:     # SysV segments: short (the slice panics), bad digits, a character across byte 13
+            return r.choice([b"/SYSV12", b"/SYSV", b"/SYSV1234567", b"/SYSVzzzzzzzz", b"/SYSV+1234567", b"/SYSV-1234567", b"/SYSVABCDEF01 (deleted)",
+                             "/SYSV1234567é".encode("utf-8"), "/SYSV12345678é".encode("utf-8"), b"/SYSV123456789"])
+        if k == 14:
+            return r.choice([b"[", b"]", b"[x", "[é]".encode("utf-8"), "[☃".encode("utf-8"), b" ", b"\t[heap]", b"[heap]\r"])
+        return bytes(r.below(256) for _ in range(r.below(6)))
+
+    def maps_line(self, odd):
+        r = self.r
+        w = r.choice([1, 8, 8, 12, 16])
+        lo = r.choice([self.u(64), self.u(32), r.below(1 << 47)])
+        hi = lo + r.choice([0x1000, 0x21000, 1, 0]) if r.chance(5, 6) else self.u(64)
+        hi = min(hi, U64)
+        f = [b"%0*x-%0*x" % (w, lo, w, hi), r.choice([b"r-xp", b"rw-p", b"---p", b"r--s", b"rwxp", b"rw-s", b"r---", b"-w-p"]),
+             b"%08x" % r.choice([0, 0x1000, self.u(32), self.u(64)]),
+             b"%02x:%02x" % (r.choice([0, 8, 0xfd, r.below(0x1000)]), r.choice([0, 1, r.below(0x100000)])),
+             b"%d" % r.choice([0, r.below(1 << 22), self.u(64)])]
+        if odd:
+            k = r.below(14)
+            if k == 0:
+                f[0] = f[0].upper()                                   # a line that opens with A-F is taken for an smaps key
+            elif k == 1:
+                f[r.choice([0, 2, 3, 4])] = r.choice([b"", b"+", b"-", b"+1f", b"-1", b"1ffffffffffffffff", b"0x10", b"g"])
+            elif k == 2:
+                f[0] = r.choice([b"%x" % lo, b"%x-" % lo, b"-%x" % hi, b"%x-%x-%x" % (lo, hi, lo), b"+%x-+%X" % (lo, hi), b"%x-%x" % (hi, lo)])
+            elif k == 3:
+                f[1] = r.choice([b"", b"rwxsp", b"r?x-", b"pppp", b"xwr", b"RWXP", "ré".encode("utf-8")])
+            elif k == 4:
+                f[3] = r.choice([b"8", b"8:", b":1", b"-1:ff", b"+3:4", b"80000000:0", b"-80000000:0", b"-80000001:0", b"7fffffff:7FFFFFFF", b"1:2:3", b"fd:g"])
+            elif k == 5:
+                f[4] = r.choice([b"18446744073709551615", b"18446744073709551616", b"+5", b"-5", b"1f", b"00000000000000000000000000007"])
+            elif k == 6:
+                del f[r.below(5)]
+            elif k == 7:
+                f[r.below(4)] += r.choice([b"\t", b" "])
+        line = b" ".join(f)
+        name = self.maps_name(odd and r.chance(1, 2))
+        if name or r.chance(2, 3) or odd:
+            line += b" " + b" " * r.choice([0, 0, 1, 7, 20]) + name
+        if odd and r.chance(1, 10):
+            line += r.choice([b" ", b"\t", b"\xff", b"\xc2"])
+        return line
+
+    def maps(self):
+        """/proc/<pid>/maps (smaps) text: mostly as documented (judged by the oracle), one text in three with odd lines"""
+        r = self.r
+        st = r.below(12)
+        if st == 0:
+            return self.text(b":")
+        odd = st in (1, 2, 3, 4)
+        crlf = odd and r.chance(1, 4)
+        out = []
+        for i in range(r.choice([0, 1, 1, 2, 3, 5, 9])):
+            out.append(self.maps_line(odd and r.chance(1, 2)))
+            if r.chance(1, 5):
+                for _ in range(r.range(1, 3)):
+                    out.append(r.choice([b"Rss:                   4 kB", b"Size: 132 kB", b"VmFlags: rd ex mr mw me", b"VmFlags:", b"KernelPageSize: 4 kB",
+                                         b"ProtectionKey:         0", b"THPeligible:    0"]))
+            if odd and r.chance(1, 6):
+                out.append(r.choice([b"Pss: 18014398509481984 kB", b"Pss: 18014398509481983 kB", b"Pss: 18446744073709551615 kB", b"Pss: 18446744073709551616",
+                                     b"Size: x kB", b"Name:", b"Name", b"Key 5", b"Key 5 6 7", b"Rss:\t4\tkB", b"VmFlagsX 1", b"Vmflags: x", b"", b" ", b"X"]))
+        if odd and r.chance(1, 6):
+            out.insert(0, r.choice([b"Rss: 4 kB", b"VmFlags: rd", b"", b"\r"]))
+        sep = b"\r\n" if crlf else b"\n"
+        b = sep.join(out)
+        if out and r.chance(5, 6):
+            b += sep
+        if odd and r.chance(1, 8):
+            b += r.choice([b"\r", b"\n", b"\x00", b"\xe2\x80"])
+        return Blob(b=b)
+
     def text(self, sep):
         """/proc-style text: key/value lines with blanks, quotes, missing separators, odd bytes"""
         r = self.r
@@ -1607,7 +1780,10 @@ class C02(PropBase):
     rule = ("a case = one dump model (header fields, 0..40 items per list, UTF-16 names incl. unpaired surrogates, CodeView records of "
             "every kind, build ids 0..64 bytes, regions 0..64 KiB anywhere in u64, list padding on/off; a directory with 2-4 entries of "
             "types the dump has, of named types without a reader (CommentStreamA, UnusedStream, Windows CE, LinuxCmdLine/Auxv ...) and of "
-            "vendor / unknown types (0x4d7a0b0b, 0xffff.., Breakpad/Crashpad ranges), locations inside / outside the file; plus "
+            "vendor / unknown types (0x4d7a0b0b, 0xffff.., Breakpad/Crashpad ranges), locations inside / outside the file; a LinuxMaps stream of "
+            "/proc/<pid>/maps (smaps) text in one model in three (0-9 mappings, every kind of name, any zero padding / blanks, smaps attribute lines; "
+            "one text in three with odd lines: signs, overflowing numbers, missing fields, CRLF, Unicode white space, invalid UTF-8, short /SYSV and "
+            "[stack:..] names, `kB` values that overflow); plus "
             "MozSoftErrors, Mac boot args, Crashpad info and Mac crash info streams (0-20 records of one version, any storage order, unknown fields, "
             "trailing bytes; not well-formed: mixed versions, version 0, short record_start_size, broken UTF-8, missing terminator, location "
             "outside the file, wrong record count) written by the plugin) serialized by the extracted Coq encode_dump, once "
@@ -1623,14 +1799,15 @@ class C02(PropBase):
         "UNIMPLEMENTED_STREAMS, stream_vendor limit/mask/arms, read_stream_list padding arms, the do_read! version table of the Mac crash info reader, "
         "the statements of Minidump::read in order; the bodies of get_stream / get_raw_stream / location_slice / get_memory / all_streams / "
         "unknown_streams / read_cstring_utf8 are compared with their expected text; aborts on anything else)",
-        "hand-written model C02/Model.v + C02/ModelR5.v (reader side mirrors minidump.rs; serializer side = the documented format), tied to the code by the "
+        "hand-written model C02/Model.v + C02/ModelR5.v + C02/ModelR6.v (reader side mirrors minidump.rs and, for the LinuxMaps text, procfs-core 0.17's "
+        "MemoryMaps::from_read; serializer side = the documented format), tied to the code by the "
         "correspondence run on identical bytes and by the synth cross-check; C08 range-table model for memory_at_address",
         "the plugin's own writer of the MozSoftErrors / boot args / Crashpad streams (checked byte for byte against the extracted Coq serializers "
         "enc_bootargs / enc_crashpad on every case) and of the Mac crash info stream (no Coq serializer: its theorem is placement-agnostic; the bytes "
         "are read by the extracted dec_maccrash and by the real reader, and judged by the oracle from the model)",
         "extraction: ExtrOcamlBasic only; ocaml/zconv.ml + ocaml/c02/main.ml; harness/src/bin/c02.rs",
     ]
-    assumptions = ["partial: the line syntax of Linux maps / limits is not modelled (other properties own those parsers); LinuxCmdLine / LinuxAuxv / "
+    assumptions = ["partial: the table syntax of MozLinuxLimits is not modelled (the stream is compared as raw bytes); LinuxCmdLine / LinuxAuxv / "
                    "LinuxDsoDebug have no typed reader: they are covered as raw streams by the directory theorem and as entries of unimplemented_streams()",
                    "Mac crash info: the theorem (c02_maccrash_any_placement) covers records of version >= 1 that share one version, wherever they are stored; "
                    "records of version 0 (passed over), mixed versions, short record_start_size, bad strings are compared with the model and, where the format "
@@ -1639,7 +1816,10 @@ class C02(PropBase):
                    "trimming / quote stripping / lines without a separator are compared against the same Coq function on every case",
                    "MozSoftErrors, Mac boot args and Crashpad info have stream-level round-trip theorems (any offset, any surrounding file) composed with the "
                    "directory theorem (c02_stream_served); they are not fields of the 20-stream model of c02_dump_roundtrip",
-                   "Linux text streams are byte-exact raw streams in the 20-stream dump theorem; maps/limits line syntax belongs to other properties",
+                   "Linux text streams are byte-exact raw streams in the 20-stream dump theorem; the LinuxMaps text has its own reader model "
+                   "(ModelR6.parse_maps) with a round-trip theorem for listings as the kernel writes them (c02_maps_roundtrip, composed with the dump theorem in "
+                   "c02_maps_in_dump); texts outside that shape (signs, overflow, missing fields, CRLF, Unicode white space, smaps lines, the three panic "
+                   "sites) are compared with the same Coq function on every case; the smaps attribute VALUES (extension map, VmFlags) are not observed",
                    "lossy UTF-8 decoding of PDB file names and UTF-16 -> String conversion are exercised (Python re-derives them), not modelled in Coq; "
                    "UTF-8 validity (std::str::from_utf8) is modelled (valid_utf8) and compared on malformed strings"]
     manifest = {
@@ -1658,14 +1838,17 @@ class C02(PropBase):
                 "every u32 stream type is of exactly one kind (a typed reader serves it, no two readers claim one type / unimplemented_streams() lists it / "
                 "unknown), unimplemented_streams() = the served entries of the regenerated table, all_streams() = the union of the three kinds; the model's "
                 "stream_vendor and 0-or-4 list padding rule are proved equal to the expressions regenerated from minidump.rs, the statements of Minidump::read "
-                "are pinned in order; linux_list_iter reads `key<sep>value` lines back as exactly the pairs written; "
+                "are pinned in order; linux_list_iter reads `key<sep>value` lines back as exactly the pairs written; a /proc/<pid>/maps listing as the kernel "
+                "writes it (any zero padding, blanks, every kind of name) reads back through MinidumpLinuxMaps::read as exactly its mappings, also as the "
+                "LinuxMaps stream of a whole serialized dump; "
                 "every address of an isolated region reads back its byte (C08); CPU contexts of nine "
                 "architectures read back their registers iff context_flags match; debug/code identifiers are the documented functions of the CodeView record. "
                 "The model is tied to the code by reading the same serialized bytes with the real Minidump::read/get_stream/get_raw_stream/all_streams/unknown_streams/unimplemented_streams "
                 "and with the extracted decoders, by a cross-check against minidump-synth, and by an independent Python oracle.",
         "note": "Trusted: Coq kernel; the two translators (layouts from format.rs, reader tables / expressions / statement order from minidump.rs); hand-written "
                 "reader model (correspondence-checked; the regenerated parts are proved equal to it); extraction + OCaml/Rust glue; the plugin's writer of "
-                "four streams (three cross-checked against the Coq serializers). Not modelled: Linux maps / limits line syntax; the data bytes behind an "
+                "four streams (three cross-checked against the Coq serializers); the LinuxMaps reader model follows procfs-core 0.17 (an external crate, not "
+                "regenerated). Not modelled: MozLinuxLimits table syntax; smaps attribute values; the data bytes behind an "
                 "object-information record.",
     }
 
@@ -1800,6 +1983,19 @@ class C02(PropBase):
     def canon_model(self, case, ans):
         # debug_file: the model prints raw PDB-name bytes (tag 0) or module-name units (tag 1); the reader
         # returns a String: bring the model's answer to the harness form (tag 9 + UTF-16 units)
+        # maps: the model prints the reader's outcome in a debug and in a release build (`v * 1024` of an smaps line traps only in
+        # debug); where they agree it is THE outcome, where they differ the case is left to the oracle
+        secs = ans.split(";")
+        if len(secs) == len(SECTIONS):
+            mi_ = SECTIONS.index("lxmaps")
+            its = secs[mi_].split("|")
+            if len(its) >= 2:
+                d_, _, r_ = its[1].partition(",")
+                if d_ != r_:
+                    return None
+                its[1] = d_
+                secs[mi_] = "|".join(its)
+                ans = ";".join(secs)
         got = parse_answer(ans)
         if got is None:
             return ans
